@@ -39,7 +39,7 @@ instance : BEq V := ⟨V.beq⟩
 
 partial def V.show : V → String
   | .nil => "n" | .tt => "t" | .ff => "f"
-  | .int i => s!"i{i}"
+  | .int i => if i.natAbs < 1000000000000000 then s!"i{i}" else s!"d{i}"
   | .str k b => (match k with | 0 => "s" | 1 => "b" | 2 => "y" | _ => "k") ++ hexOfBytes b
   | .seq k l => (if k == 0 then "(" else "[") ++ String.join (l.map (fun v => " " ++ v.show)) ++ (if k == 0 then " )" else " ]")
   | .tbl k l =>
@@ -135,6 +135,11 @@ def cmp (name : String) : Option (Int → Int → Bool) :=
   | "ne" => some (· ≠ ·)
   | "rnd" => some (fun a b => (31 * a + 17 * b + a * b) % 3 == 0)
   | _ => none
+
+def keyfn (name : String) : Option (Int → Int) :=
+  match name with
+  | "mod4" => some (· % 4) | "abs" => some (fun x => (x.natAbs : Int)) | "neg" => some (fun x => -x) | "id" => some id
+  | "sq" => some (fun x => x * x) | _ => none
 
 def ints (l : List V) : Option (List Int) := l.mapM (fun v => match v with | .int i => some i | _ => none)
 
@@ -554,6 +559,36 @@ def call (f : String) (args : List V) : Out :=
         | .err => .sortErr
         | .fuel => .sortFuel)
      | _, _ => .skip)
+  | "sort-by", [.fn kf, .seq 1 l] | "sorted-by", [.fn kf, .seq _ l] =>
+    (match ints l, keyfn kf with
+     | some xs, some key =>
+       (match Sort.sort (fun a b => decide (a ≤ b)) (fun a b => decide (key a < key b)) xs.toArray with
+        | .ok r =>
+          let rv := V.seq 1 (r.toList.map V.int)
+          if f == "sort-by" then .ok rv [.fn kf, rv] else .ok rv args
+        | .err => .sortErr
+        | .fuel => .sortFuel)
+     | _, _ => .skip)
+  | "buffer/push-uint64", [.str 1 b, .str 3 order, .int x] =>
+    let be? : Option Bool := if order == [108, 101] then some false else if order == [98, 101] then some true
+                             else if order == [110, 97, 116, 105, 118, 101] then some false else none
+    (match be? with
+     | none => .err args
+     | some be =>
+       if 0 ≤ x ∧ x ≤ 9007199254740992 then
+         let bs := leBytes 8 x.toNat
+         let r := b ++ (if be then bs.reverse else bs)
+         .ok (.str 1 r) (setArg0 args (.str 1 r))
+       else .err args)
+  | "buffer/push-float64", [.str 1 b, .str 3 order, .int x] =>
+    let be? : Option Bool := if order == [108, 101] then some false else if order == [98, 101] then some true
+                             else if order == [110, 97, 116, 105, 118, 101] then some false else none
+    (match be? with
+     | none => .err args
+     | some be =>
+       let bs := leBytes 8 (Float.ofInt x).toBits.toNat
+       let r := b ++ (if be then bs.reverse else bs)
+       .ok (.str 1 r) (setArg0 args (.str 1 r)))
   | _, _ => .skip
 
 def render (o : Out) : String :=
